@@ -10,7 +10,7 @@ from .c01 import tol_time
 
 MANIFEST = dict(
     technique="Lean 4 proof: DFT shift theorem and tone spectrum on ZMod N (Mathlib), zero-fill rule and crop-complement theorem over Q with floor/ceil, broadcasting model + differential correspondence of transforms.time_shift (exact zero pattern per sample element, crop vs uncropped, metadata, values against a float64 DFT oracle)",
-    level_text="proved: ifft(ramp*fft(x)) is the circular delay for every N and whole shift, the tone factor, position n is zero-filled iff its source n-a lies outside the input (all a, all N), |a|>=N zeroes everything, crop=True keeps exactly the positions zero-filled for no element; tied: per-element zero intervals under every broadcastable shift shape compared exactly with the model, crop result bitwise equal to the uncropped result minus the edges, stamps via the C01 ledger model",
+    level_text="the zero-fill loop body and the phase factor of time_shift, translated symbolically from the source on every run, are the model's (C03_source_loop); proved: ifft(ramp*fft(x)) is the circular delay for every N and whole shift, the tone factor, position n is zero-filled iff its source n-a lies outside the input (all a, all N), |a|>=N zeroes everything, crop=True keeps exactly the positions zero-filled for no element; tied: per-element zero intervals under every broadcastable shift shape compared exactly with the model, crop result bitwise equal to the uncropped result minus the edges, stamps via the C01 ledger model",
     level_note="PARTIAL on numerics: SciPy's FFT and the complex64 phase ramp are floating point and outside the model; values are validated against an O(N log N) float64 oracle at 4e-6*log2(N) (2e-5 for 32-bit data), not proved. Trusted: Lean kernel + Mathlib (3 std axioms), hand model PbModel/Shift.lean tied by correspondence, NumPy broadcasting/nditer order",
 )
 
